@@ -34,3 +34,4 @@ int comp_volume();
 int comp_wopn();
 int comp_bankmap();
 int comp_pitch();
+int comp_synth();
